@@ -118,6 +118,10 @@ pub struct Case {
     /// the signer is restarted from the store before this repeat (0 = never)
     #[serde(default)]
     pub restart_before: u8,
+    /// allowlist edit history before the first transaction (world::allowlist_edit; 0 = none):
+    /// afterwards the plainly allowlisted address is an unknown destination
+    #[serde(default)]
+    pub allow_edit: u8,
 }
 
 fn in_strat() -> impl Strategy<Value = InGen> {
@@ -210,12 +214,12 @@ impl Prop for C08 {
             prop::bool::weighted(0.3),
             prop::bool::weighted(0.03),
             prop_oneof![9 => Just(None), 1 => (1u8..4, 24u8..32).prop_map(Some)],
-            prop_oneof![3 => Just(0u8), 1 => Just(1u8), 1 => Just(2u8)],
+            (prop_oneof![3 => Just(0u8), 1 => Just(1u8), 1 => Just(2u8)], prop_oneof![5 => Just(0u8), 2 => 1u8..7]),
         )
-            .prop_map(|(version, inputs, outputs, chans, fee, fee_velocity_sat, max_feerate, repeats, via_approver, big_tx, storm, restart_before)| {
+            .prop_map(|(version, inputs, outputs, chans, fee, fee_velocity_sat, max_feerate, repeats, via_approver, big_tx, storm, (restart_before, allow_edit))| {
                 // a storm is only interesting with a finite fee velocity limit
                 let fee_velocity_sat = if storm.is_some() { fee_velocity_sat.or(Some(2500)) } else { fee_velocity_sat };
-                Case { version, inputs, outputs, chans, fee, fee_velocity_sat, max_feerate, repeats, via_approver, big_tx, storm, restart_before }
+                Case { version, inputs, outputs, chans, fee, fee_velocity_sat, max_feerate, repeats, via_approver, big_tx, storm, restart_before, allow_edit }
             })
             .boxed()
     }
@@ -250,6 +254,12 @@ impl Prop for C08 {
             allow_entries.push(format!("address:{}", Address::p2wpkh(&pk, net)));
         }
         w.node.add_allowlist(&allow_entries).expect("allowlist");
+        let mut allowlisted_now = true;
+        if case.allow_edit != 0 {
+            let absent = Address::p2wpkh(&CompressedPublicKey(PublicKey::from_secret_key(&secp, &SecretKey::from_slice(&[0x3c; 32]).unwrap())), net);
+            allowlisted_now = crate::world::allowlist_edit(&mut w, &format!("address:{}", allow_addr), &format!("address:{}", absent), case.allow_edit);
+            st.class(format!("allowlist_edit:{}", case.allow_edit % 7));
+        }
         let foreign = |i: u8| Address::p2wpkh(&CompressedPublicKey(PublicKey::from_secret_key(&secp, &SecretKey::from_slice(&[40 + i; 32]).unwrap())), net).script_pubkey();
 
         // approved non-beneficial value with the time of approval; the window of the daily control is
@@ -380,7 +390,7 @@ impl Prop for C08 {
                         OutKind::WalletP2sh => (wallet_scripts(60 + oi as u32)[1].clone(), path_of(60 + oi as u32), true, false, 1),
                         OutKind::WalletP2tr => (wallet_scripts(60 + oi as u32)[2].clone(), path_of(60 + oi as u32), true, false, 2),
                         OutKind::WalletWrongPath => (wallet_scripts(60 + oi as u32)[0].clone(), path_of(61 + oi as u32), false, false, 3),
-                        OutKind::Allowlisted => (allow_addr.script_pubkey(), DerivationPath::master(), true, false, 4),
+                        OutKind::Allowlisted => (allow_addr.script_pubkey(), DerivationPath::master(), allowlisted_now, !allowlisted_now, 4),
                         OutKind::XpubDerived => {
                             let pk = CompressedPublicKey(axpub.derive_pub(&secp, &path_of(7 + oi as u32)).unwrap().public_key);
                             (Address::p2wpkh(&pk, net).script_pubkey(), path_of(7 + oi as u32), true, false, 5)
